@@ -23,7 +23,7 @@ pub open spec fn shift_ok<A>(out: Seq<A>, x: Seq<A>, n: int, fill: spec_fn(A) ->
     &&& forall|i: int| 0 <= i < x.len() && vacated(x.len() as int, n, i) ==> fill(#[trigger] out[i])
     &&& forall|i: int| 0 <= i < x.len() && !vacated(x.len() as int, n, i) ==> #[trigger] out[i] == x[i - n]
 }
-pub open spec fn honest_out<A>(r: &It<A>) -> bool { r.trusted() && r.announced() == Some(r.seq().len()) }
+pub open spec fn honest_out<A>(r: &It<A>) -> bool { r.trusted() && r.announced() == Some(r.seq().len()) && r.forever().is_none() }
 
 //@fn name=shift crate=tea-map ctx="pub trait MapBasic" props=C13,C09 arith=C09
 //@sig fn shift<A>(this: It<A>, n: i32, value: A) -> (r: Box<It<A>>)
